@@ -498,9 +498,17 @@ pub fn strategy_c20(max_layer: usize) -> impl Strategy<Value = TailCase> {
         plan(max_layer, false),
         filters(0),
         proptest::sample::select(vec![1usize, 2, 4, 8]),
-        prop_oneof![1 => Just(0u64), 1 => 3u64..40],
+        prop_oneof![4 => Just(0u64), 4 => 3u64..40, 1 => 520u64..700],
     )
         .prop_map(|(mut plan, filters, tw, lock_delay_ms)| {
+            if lock_delay_ms >= 500 {
+                // longer than the flush interval: every other task's flush waits for the
+                // connection through at least one tick; kept to a small plan
+                plan.layers = vec![plan.layers[0].min(3)];
+                plan.ncmd = 1;
+                plan.bursts = 0;
+                plan.long_lines = 0;
+            }
         // no failing task: a failure cancels the siblings in the middle of their output, and for a
         // task cut off like that neither "newline-terminated" nor "its stored log" is well defined
         // (on the unchanged tree the listener may have more or less than what was stored)
@@ -676,6 +684,7 @@ pub fn check_c20(case: &TailCase, w: usize) -> CheckResult {
         .class_if(case.plan.bursts != 0, "bursts>8KiB-of-multibyte-lines")
         .class_if(run.failed, "a-task-failed-and-cancelled-its-siblings")
         .class_if(case.lock_delay_ms > 0, "delay-inside-the-connection-lock")
+        .class_if(case.lock_delay_ms >= 500, "connection-held-longer-than-the-flush-interval")
         .class(&format!("tokio-workers={}", case.tokio_workers))
         .inv(env.invocations))
 }
